@@ -20,8 +20,8 @@ Fixpoint assigned (vals comms poss : list N) (v c : N) (ok : N -> bool) : bool :
   end.
 
 (* The property evaluated on the OBSERVED calls alone, per call of Attest:
-   - the signer is asked at most once, for distinct validators that are in the duty and have an
-     account, each paired with the committee index the duty assigns to that very validator, for
+   - the signer is asked for distinct validators that are in the duty and have an
+     account (in one request, or in several that name no validator twice between them), each paired with the committee index the duty assigns to that very validator, for
      the duty's slot and the root/source/target of the data the beacon node returned;
    - the submitter is called at most once, and only after the signer;
    - the submitted attestations are exactly one per validator of the signing request that was not
@@ -46,15 +46,24 @@ Definition att_ok (d : duty) (a : adata) (x : att) : bool :=
   vote_eqb (at_vote x) (mkvote (d_slot d) c a) &&
   vote_eqb (snd (at_sig x)) (at_vote x).
 
+(* The signer may be asked in several requests by one call (a call that splits its accounts into
+   ranges and has them signed side by side is as good as one that asks once): the requests of one call
+   must each be right in themselves ([signreq_ok]) and name no validator twice between them.  What is
+   submitted is then judged against ALL pairs of the call's requests, keyed by validator: the signature
+   an attestation carries must be the one that validator's account gave over that attestation's own
+   values, whichever request it came from and whenever that request returned. *)
 Definition run_ok (tr : list event) (i : nat) (r : run) : bool :=
   let d := r_duty r in
   let sc := r_script r in
-  match signreq_of tr i, filter (fun ev => match ev with Submit j _ => Nat.eqb i j | _ => false end) tr with
+  let qs := signreq_of tr i in
+  let pairs := sort_by fst (flat_map sr_pairs qs) in
+  match qs, filter (fun ev => match ev with Submit j _ => Nat.eqb i j | _ => false end) tr with
   | [], [] => true
-  | [q], subs =>
+  | [], _ :: _ => false
+  | _ :: _, subs =>
       match s_fetch sc, s_accounts sc with
       | Some a, Some avail =>
-          signreq_ok d a avail q &&
+          forallb (signreq_ok d a avail) qs && nodupb N.eqb (map fst pairs) &&
           match subs with
           | [] => true
           | [Submit _ atts] =>
@@ -63,14 +72,13 @@ Definition run_ok (tr : list event) (i : nat) (r : run) : bool :=
                   forallb (att_ok d a) atts &&
                   list_eqb N.eqb (map (fun x => fst (at_sig x)) atts)
                            (map fst (filter (fun p => negb (memb N.eqb (fst p) unsigned) &&
-                                                      (size_of d (snd p) <=? max_committee)) (sr_pairs q)))
+                                                      (size_of d (snd p) <=? max_committee)) pairs))
               | None => false
               end
           | _ => false
           end
       | _, _ => false
       end
-  | _, _ => false
   end.
 
 Fixpoint runs_ok (tr : list event) (i : nat) (rs : list run) : bool :=
